@@ -713,6 +713,7 @@ func staticObligations(P *Program, C *Contracts) []*Obligation {
 		if bad != "" {
 			o.Result = "sat"
 			o.Output = "stored to by " + bad
+			fmt.Fprintln(os.Stderr, "immutable", f, "writers:", writers[f])
 			o.Clause += " (violated by " + bad + ")"
 		}
 		out = append(out, o)
